@@ -235,6 +235,12 @@ class ObjectType(Type):
         package = tp.__module__.lower()
         name = tp.__qualname__.lower()
 
+        # The classes of the experiment script (__main__) are loaded back under
+        # the module name _main_ (see load_objects): they keep the type
+        # identifier they were given in the script
+        if package == "_main_":
+            package = "__main__"
+
         if identifier is None:
             qname = f"{package}.{name}"
             assert (
